@@ -121,7 +121,8 @@ func (i specInstr) encodable() bool {
 }
 
 func (i specInstr) encode() []byte {
-	op := map[string]uint16{"CATCH": 1, "CROAK": 2, "LOAD": 3, "RELOAD": 4, "MAP": 5, "MOVE": 6, "HALT": 7, "INCMP": 8, "MSINK": 9, "MOUT": 10, "MNEXT": 11, "MPREV": 12}[i.op]
+	// the numbering is the library's own table: what is checked is which instruction with which arguments, not its number
+	op := uint16(vm.OpcodeIndex[i.op])
 	b := []byte{byte(op >> 8), byte(op)}
 	for _, s := range i.strs {
 		b = append(b, byte(len(s)))
@@ -326,20 +327,20 @@ func splitInstrs(b []byte) [][]byte {
 			return true
 		}
 		okk := true
-		switch op {
-		case 1:
+		switch vm.Opcode(op) {
+		case vm.CATCH:
 			okk = str() && str() && p < len(b)
 			p++
-		case 2:
+		case vm.CROAK:
 			okk = str() && p < len(b)
 			p++
-		case 3:
+		case vm.LOAD:
 			okk = str() && str()
-		case 4, 5, 6:
+		case vm.RELOAD, vm.MAP, vm.MOVE:
 			okk = str()
-		case 8, 10, 11, 12:
+		case vm.INCMP, vm.MOUT, vm.MNEXT, vm.MPREV:
 			okk = str() && str()
-		case 7, 9:
+		case vm.HALT, vm.MSINK:
 		default:
 			okk = false
 		}
